@@ -11,7 +11,7 @@ import copy
 import re
 
 from verif import core
-from verif.tree import walk, show, stmt_list, strip, children
+from verif.tree import walk, show, stmt_list, strip, children, meth
 
 LEVEL = "translation_validation"
 UNIT = "opm/material/densead/Evaluation.cpp"
@@ -331,5 +331,81 @@ def run(chk):
     chk.level = "translation_validation"
     chk.extra.update(programs=programs, disagreements_checked=disagreements,
                      samples=samples or [dict(note="no multi-statement members sampled")])
+    # ---- C16.deriv: the derivative factor of every elementary function
+    r_dv = chk.rule("C16.deriv", "DenseAd math functions (Math.hpp): the factor that multiplies the argument's derivatives is the derivative of the function - tan: 1 + tan^2, atan: 1/(1+x^2), sin: cos, asin: 1/sqrt(1-x^2), sinh: cosh, asinh: 1/sqrt(x^2+1), cos: -sin, acos: -1/sqrt(1-x^2), cosh: sinh, acosh: 1/sqrt(x^2-1), sqrt: 0.5/sqrt, exp: exp, log: 1/x, log10: log10(e)/x, pow(x,c): c x^c / x, pow(b,x): ln(b) b^x - compared as symbolic terms with the locals inlined", floor=14)
+    from verif import symb as sy
+    X_ = sy.S("X")
+
+    def F(nm, *a):
+        return sy.S("%s(%s)" % (nm, ",".join(sy.show_term(t) for t in a)))
+    one = sy.I(1)
+    xx = sy.mul(X_, X_)
+    WANT_DV = {
+        "tan": [sy.add(one, sy.mul(F("tan", X_), F("tan", X_)))],
+        "atan": [sy.div(one, sy.add(one, xx))],
+        "sin": [F("cos", X_)],
+        "asin": [sy.div(one, F("sqrt", sy.add(one, sy.mul(sy.I(-1), xx))))],
+        "sinh": [F("cosh", X_)],
+        "asinh": [sy.div(one, F("sqrt", sy.add(xx, one)))],
+        "cos": [sy.mul(sy.I(-1), F("sin", X_))],
+        "acos": [sy.mul(sy.I(-1), sy.div(one, F("sqrt", sy.add(one, sy.mul(sy.I(-1), xx))))), sy.div(sy.I(-1), F("sqrt", sy.add(one, sy.mul(sy.I(-1), xx))))],
+        "cosh": [F("sinh", X_)],
+        "acosh": [sy.div(one, F("sqrt", sy.add(xx, sy.I(-1))))],
+        "sqrt": [sy.div(sy.S("0.5"), F("sqrt", X_))],
+        "exp": [F("exp", X_)],
+        "log": [sy.div(one, X_)],
+        "log10": [sy.mul(sy.div(one, X_), F("log10", F("exp", one)))],
+        "pow:base": [sy.mul(sy.div(F("pow", X_, sy.S("C")), X_), sy.S("C"))],
+        "pow:exp": [sy.mul(F("log", sy.S("C")), F("exp", sy.mul(F("log", sy.S("C")), X_))), sy.mul(F("log", sy.S("C")), sy.S("value(result)"))],
+    }
+    seen_dv = set()
+    for f in fm.fns:
+        if not f["file"].endswith("Math.hpp") or not f.get("body") or f.get("cls"):
+            continue
+        dfs = [v for n in walk(f["body"]) if n["k"] == "Decl" for v in n["vars"] if v["n"] == "df_dx" and isinstance(v.get("init"), dict)]
+        if len(dfs) != 1:
+            continue
+        evp = [p_["n"] for p_ in f["params"] if "Evaluation" in (p_.get("t") or "")]
+        scp = [p_["n"] for p_ in f["params"] if "Evaluation" not in (p_.get("t") or "")]
+        if len(evp) != 1:
+            continue
+        name = f["n"]
+        if name == "pow":
+            name = "pow:base" if f["params"][0]["n"] == evp[0] else "pow:exp"
+
+        def leaf_d(e, evp=evp, scp=scp):
+            m_, o_ = meth(e)
+            if m_ == "value" and o_ is not None and strip(o_).get("k") == "Ref":
+                return X_ if strip(o_)["n"] == evp[0] else sy.S("value(%s)" % strip(o_)["n"])
+            if e.get("k") == "Ref" and e.get("d") == "Parm" and e.get("n") in scp:
+                return sy.S("C")
+            if e.get("k") in ("Call", "MCall") and e.get("a") is not None:
+                nm = (e.get("m") or (e.get("fn") or "") or ((e.get("callee") or {}).get("n") or "")).split("::")[-1]
+                if nm in ("tan", "cos", "sin", "cosh", "sinh", "sqrt", "exp", "log", "log10", "pow"):
+                    args = [ev_d.term(a_, env_d) for a_ in e["a"]]
+                    if None not in args:
+                        return F(nm, *args)
+            return None
+        locs_d = {v["n"] for n in walk(f["body"]) if n["k"] == "Decl" for v in n["vars"]}
+        ev_d = sy.Eval(leaf_d, locs_d)
+        env_d = {}
+        # locals in source order up to df_dx (declarations may sit in nested blocks)
+        for n in walk(f["body"]):
+            if n["k"] == "Decl":
+                for v in n["vars"]:
+                    if isinstance(v.get("init"), dict) and v["n"] != "result":
+                        env_d[v["n"]] = ev_d.term(v["init"], env_d)
+        got = env_d.get("df_dx")
+        seen_dv.add(name)
+        ok = name in WANT_DV and got in WANT_DV[name]
+        chk.instance(r_dv, name, sample=dict(function=f["q"], factor=sy.show_term(got), expected=sy.show_term(WANT_DV[name][0]) if name in WANT_DV else None))
+        if name not in WANT_DV:
+            raise core.AnalysisBroken("Math.hpp: function %s has a derivative factor but no entry in the derivative table of rules/C16.py" % name)
+        if not ok:
+            chk.violation(r_dv, name, "DenseAd::%s multiplies the argument's derivatives with %s; the derivative of the function is %s: the value stays right and every derivative delivered through the chain rule is wrong" % (f["n"], sy.show_term(got), sy.show_term(WANT_DV[name][0])), f["file"], dfs[0]["l"])
+    missing = sorted(set(WANT_DV) - seen_dv)
+    if missing:
+        raise core.AnalysisBroken("Math.hpp: derivative factor not found for %s" % missing)
+
     chk.assumptions += ["loop unrolling with dstart_()=1, dend_()=length_()=N+1, valuepos_()=0, size()=N as declared in each specialisation (checked by C16.included)",
-                        "derivative formulas in Math.hpp are not validated against calculus"]
+                        "the derivative factors of Math.hpp are compared with the table of elementary derivatives in rules/C16.py (C16.deriv); atan2, abs, min, max and the blending helpers are not in it"]
